@@ -1,43 +1,355 @@
+// C27 harness: full ListObjects V1/V2 pagination loops against the REAL S3 gateway
+// router (s3api.S3ApiServer.registerRouter -> ListObjectsV1Handler /
+// ListObjectsV2Handler -> listFilerEntries -> doListFilerEntries) talking gRPC to
+// the real FilerServer.ListEntries over a real filer.Filer on leveldb2 (package
+// s3env).  Bucket trees are subsets of a small universe; one case = one tree,
+// one (prefix, delimiter, max-keys, allowEmptyFolder) and one continuation style.
 package main
 
 import (
+	"encoding/xml"
 	"fmt"
-	"os"
+	"net/url"
+	"sort"
 	"strings"
 
+	"verifharness/hx"
 	"verifharness/s3env"
 )
 
-func main() {
-	e := s3env.New(s3env.Options{})
-	defer e.Close()
-	b := "/buckets/b"
-	e.Mkdir(b)
-	for _, f := range strings.Split(os.Args[1], ",") {
-		if strings.HasSuffix(f, "/") {
-			e.Mkdir(b + "/" + strings.TrimSuffix(f, "/"))
-		} else {
-			e.PutFile(b+"/"+f, []byte("x"))
+// ---------- universe ----------
+
+// entries ending in "/" are (empty) directories
+var universe = []string{"a", "b", "d/a", "d/b", "d/e/a", "d/e/b", "d/f", "da", ".uploads/x/0001.part", "e/"}
+
+var prefixes = []string{"", "d", "d/", "d/e", "da", "x"}
+var oddPrefixes = []string{"d/e/", "d//", "/d/", ".uploads/", ".uploads/x/", "/", "d/../d/"}
+var maxKeysChoices = []int{1, 2, 3, 4, 1000}
+var styles = []string{"V2Token", "V1NextMarker", "V1LastKey", "V2StartAfter"}
+// (markers with an empty segment such as "/a" or "d//a" are not generated: with a
+// delimiter they make one request delete a non-empty folder and then list it again,
+// which the immutable-tree model does not follow; see checks/C27.json assumptions)
+var oddStarts = []string{"a", "b", "d", "d/", "d/a", "d/b", "d/e", "d/e/", "d/e/a", "da", "e", "zz", ".uploads/", ".uploads/x/", "x/y/z"}
+
+const pageCap = 14
+
+// ---------- trees ----------
+
+type node struct {
+	name string
+	dir  bool
+	kids map[string]*node
+}
+
+func buildTree(items []string) *node {
+	root := &node{dir: true, kids: map[string]*node{}}
+	for _, it := range items {
+		isDir := strings.HasSuffix(it, "/")
+		segs := strings.Split(strings.TrimSuffix(it, "/"), "/")
+		cur := root
+		for i, s := range segs {
+			last := i == len(segs)-1
+			k, ok := cur.kids[s]
+			if !ok {
+				k = &node{name: s, dir: !last || isDir, kids: map[string]*node{}}
+				cur.kids[s] = k
+			}
+			cur = k
 		}
 	}
-	e.Mkdir("/buckets/other")
-	e.PutFile("/buckets/other/obj", []byte("victim"))
-	fmt.Print(e.SnapshotString("/buckets"))
-	for _, t := range os.Args[2:] {
-		e.Store.Take()
-		m := "GET"
-		if i := len(t); i > 0 && t[0] != '/' {
-			for j := 0; j < len(t); j++ {
-				if t[j] == ' ' {
-					m, t = t[:j], t[j+1:]
-					break
+	return root
+}
+
+func coqKids(n *node) string {
+	names := make([]string, 0, len(n.kids))
+	for k := range n.kids {
+		names = append(names, k)
+	}
+	sort.Strings(names) // byte order, as leveldb
+	xs := make([]string, len(names))
+	for i, k := range names {
+		c := n.kids[k]
+		if c.dir {
+			xs[i] = "D " + coqSeg(k) + " " + coqKids(c)
+		} else {
+			xs[i] = "F " + coqSeg(k)
+		}
+	}
+	return hx.List(xs)
+}
+
+// ---------- the world ----------
+
+const bucketDir = s3env.BucketsPath + "/b"
+
+type world struct {
+	env   *s3env.Env
+	items []string
+	snap  string
+}
+
+func (w *world) build(items []string) {
+	w.env.Wipe(s3env.BucketsPath)
+	w.env.Mkdir(bucketDir)
+	for _, it := range items {
+		if strings.HasSuffix(it, "/") {
+			w.env.Mkdir(bucketDir + "/" + strings.TrimSuffix(it, "/"))
+		} else {
+			w.env.PutFile(bucketDir+"/"+it, []byte("x"))
+		}
+	}
+	w.items = items
+	w.snap = w.env.SnapshotString(s3env.BucketsPath)
+}
+
+// restore undoes what a LIST request did to the bucket (the gateway deletes the
+// folders it finds empty), so that every page is served from the same tree.
+func (w *world) restore() bool {
+	if w.env.SnapshotString(s3env.BucketsPath) == w.snap {
+		return false
+	}
+	w.build(w.items)
+	return true
+}
+
+// ---------- one page ----------
+
+type listResult struct {
+	XMLName               xml.Name `xml:"ListBucketResult"`
+	IsTruncated           bool     `xml:"IsTruncated"`
+	NextMarker            string   `xml:"NextMarker"`
+	NextContinuationToken string   `xml:"NextContinuationToken"`
+	Contents              []struct {
+		Key string `xml:"Key"`
+	} `xml:"Contents"`
+	CommonPrefixes []struct {
+		Prefix string `xml:"Prefix"`
+	} `xml:"CommonPrefixes"`
+}
+
+type page struct {
+	keys, cps []string
+	trunc     bool
+	next      string
+}
+
+type params struct {
+	ae      bool
+	prefix  string
+	maxKeys int
+	delim   bool
+	style   string
+	start   string
+}
+
+func (w *world) page(p params, marker string) (page, bool) {
+	q := url.Values{}
+	v2 := p.style == "V2Token" || p.style == "V2StartAfter"
+	if v2 {
+		q.Set("list-type", "2")
+	}
+	if p.prefix != "" {
+		q.Set("prefix", p.prefix)
+	}
+	if p.delim {
+		q.Set("delimiter", "/")
+	}
+	q.Set("max-keys", fmt.Sprint(p.maxKeys))
+	if marker != "" {
+		switch p.style {
+		case "V2Token":
+			q.Set("continuation-token", marker)
+		case "V2StartAfter":
+			q.Set("start-after", marker)
+		default:
+			q.Set("marker", marker)
+		}
+	}
+	w.env.S3.VerifS3SetAllowEmptyFolder(p.ae)
+	r := w.env.Do("GET", "/b?"+q.Encode(), nil, nil)
+	if r.Status != 200 {
+		panic(fmt.Sprintf("list %v marker %q: status %d: %s", p, marker, r.Status, r.Body))
+	}
+	var lr listResult
+	hx.Must(xml.Unmarshal(r.Body, &lr))
+	pg := page{trunc: lr.IsTruncated}
+	if v2 {
+		pg.next = lr.NextContinuationToken
+	} else {
+		pg.next = lr.NextMarker
+	}
+	for _, c := range lr.Contents {
+		pg.keys = append(pg.keys, c.Key)
+	}
+	for _, c := range lr.CommonPrefixes {
+		pg.cps = append(pg.cps, c.Prefix)
+	}
+	changed := w.restore()
+	return pg, changed
+}
+
+// lastKey is the last item of the page in S3 (byte) order.
+func lastKey(pg page) (string, bool) {
+	k, c := "", ""
+	if len(pg.keys) > 0 {
+		k = pg.keys[len(pg.keys)-1]
+	}
+	if len(pg.cps) > 0 {
+		c = pg.cps[len(pg.cps)-1]
+	}
+	if k == "" && c == "" {
+		return "", false
+	}
+	if k < c {
+		return c, true
+	}
+	return k, true
+}
+
+// paginate is the client: it continues as the style says until a page is not
+// truncated (or it cannot continue, or pageCap pages were read).
+func (w *world) paginate(p params) (pages []page, deleted bool) {
+	marker := p.start
+	for len(pages) < pageCap {
+		pg, ch := w.page(p, marker)
+		deleted = deleted || ch
+		pages = append(pages, pg)
+		if !pg.trunc {
+			break
+		}
+		switch p.style {
+		case "V2Token", "V1NextMarker":
+			marker = pg.next
+		default:
+			m, ok := lastKey(pg)
+			if !ok {
+				return
+			}
+			marker = m
+		}
+	}
+	return
+}
+
+// Coq string literals are slow to parse, so known segment names are printed as the
+// constants defined in check/C27.v and composite strings as J [segments].
+var segIdent = map[string]string{"": "s_", "a": "sa", "b": "sb", "d": "sd", "da": "sda", "e": "se", "f": "sf",
+	"x": "sx", "y": "sy", "z": "sz", "zz": "szz", ".uploads": "sup", "0001.part": "spart"}
+
+func coqSeg(s string) string {
+	if id, ok := segIdent[s]; ok {
+		return id
+	}
+	return hx.Str(s)
+}
+
+func coqStr(s string) string {
+	if !strings.Contains(s, "/") {
+		return coqSeg(s)
+	}
+	segs := strings.Split(s, "/")
+	xs := make([]string, len(segs))
+	for i, g := range segs {
+		xs[i] = coqSeg(g)
+	}
+	return "(J " + hx.List(xs) + ")"
+}
+
+func strList(xs []string) string {
+	ys := make([]string, len(xs))
+	for i, x := range xs {
+		ys[i] = coqStr(x)
+	}
+	return hx.List(ys)
+}
+
+func coqPage(pg page) string {
+	return fmt.Sprintf("P %s %s %s %s", strList(pg.keys), strList(pg.cps), hx.Bool(pg.trunc), coqStr(pg.next))
+}
+
+// ---------- main ----------
+
+type spec struct {
+	items []string
+	p     params
+	kind  string
+}
+
+func main() {
+	out := hx.Flags("C27", 400)
+	out.Rule = "bucket trees = subsets of {a, b, d/a, d/b, d/e/a, d/e/b, d/f, da, .uploads/x/0001.part, e/ (empty dir)} created through filer.Filer.CreateEntry (inline content) over leveldb2; prefix in {\"\", d, d/, d/e, da, x} (1 in 12: an odd prefix such as d//, /d/, .uploads/), delimiter \"\" or /, max-keys in {1,2,3,4,1000}, allowEmptyFolder on/off, continuation style in {V2 continuation-token, V1 NextMarker, V1 last key as marker, V2 last key as start-after}; 1 case in 8 starts from an arbitrary marker/start-after; every case is a FULL pagination loop (at most 14 pages) through the real S3 router and the real filer gRPC ListEntries; the bucket is restored after any page that deleted empty folders; the first 5 cases are the fixed witnesses of the known findings; non-trivial = some page holds a key; distinct = canonical input"
+	env := s3env.New(s3env.Options{})
+	defer env.Close()
+	w := &world{env: env}
+	root := hx.NewRng(out.Seed)
+
+	witnesses := []spec{
+		{[]string{"d/a", "d/b", "d/e/a"}, params{false, "d/", 1, false, "V1LastKey", ""}, "witness-k0"},
+		{[]string{".uploads/x/0001.part", "a", "b", "da"}, params{false, "", 2, false, "V2Token", ""}, "witness-k1"},
+		{[]string{"a", "d/a", "d/b", "da"}, params{false, "", 1, true, "V1LastKey", ""}, "witness-k2"},
+		{[]string{"d/e/a", "d/e/b", "d/f", "da"}, params{false, "", 1, false, "V2Token", ""}, "witness-k3"},
+		{[]string{".uploads/x/0001.part", "a"}, params{false, ".uploads/", 1000, false, "V2Token", ""}, "witness-k4"},
+		{[]string{"d/e/a", "da"}, params{false, "", 1000, false, "V2StartAfter", "d"}, "witness-k5"},
+	}
+
+	for i := 0; i < out.N; i++ {
+		r := root.Fork()
+		var s spec
+		if i < len(witnesses) {
+			s = witnesses[i]
+		} else {
+			// subset: each entry with probability 2/3, so that full-ish trees are common
+			for _, u := range universe {
+				if r.Chance(2, 3) {
+					s.items = append(s.items, u)
 				}
 			}
+			s.p.ae = r.Chance(1, 3)
+			if r.Chance(1, 12) {
+				s.p.prefix = r.PickStr(oddPrefixes)
+				s.kind = "odd-prefix"
+			} else {
+				s.p.prefix = r.PickStr(prefixes)
+				s.kind = "loop"
+			}
+			s.p.delim = r.Bool()
+			s.p.maxKeys = r.PickInt(maxKeysChoices)
+			s.p.style = r.PickStr(styles)
+			// a continuation token is opaque: only V1 marker / V2 start-after may start anywhere
+			if r.Chance(1, 8) && s.p.style != "V2Token" {
+				s.p.start = r.PickStr(oddStarts)
+				s.kind = "start"
+			}
 		}
-		r := e.Do(m, t, nil, nil)
-		fmt.Printf("== %s %s -> %d\n%s\n", m, t, r.Status, r.Body)
-		for _, c := range e.Store.Take() {
-			fmt.Printf("   %s %s\n", c.Op, c.Path)
+		w.build(s.items)
+		pages, deleted := w.paginate(s.p)
+
+		ps := make([]string, len(pages))
+		nontrivial := false
+		nkeys := 0
+		for j, pg := range pages {
+			ps[j] = coqPage(pg)
+			if len(pg.keys) > 0 {
+				nontrivial = true
+			}
+			nkeys += len(pg.keys)
+		}
+		term := fmt.Sprintf("{| c_ae := %s; c_tree := %s; c_prefix := %s; c_maxkeys := %s; c_delim := %s; c_style := %s; c_start := %s; c_cap := %s; c_pages := %s |}",
+			hx.Bool(s.p.ae), coqKids(buildTree(s.items)), coqStr(s.p.prefix), hx.Z(int64(s.p.maxKeys)), hx.Bool(s.p.delim), s.p.style, coqStr(s.p.start), hx.Nat(pageCap), hx.List(ps))
+		canon := fmt.Sprintf("%v|%+v", s.items, s.p)
+		out.Add(term, canon, nontrivial, s.kind)
+		out.Count("style:"+s.p.style, 1)
+		out.Count(fmt.Sprintf("maxkeys:%d", s.p.maxKeys), 1)
+		out.Count("prefix:"+s.p.prefix, 1)
+		out.Count(fmt.Sprintf("delim:%v", s.p.delim), 1)
+		out.Count(fmt.Sprintf("pages:%d", len(pages)), 1)
+		out.Count(fmt.Sprintf("tree-size:%d", len(s.items)), 1)
+		if deleted {
+			out.Count("list-deleted-folders", 1)
+		}
+		if len(pages) == pageCap && pages[len(pages)-1].trunc {
+			out.Count("page-cap-hit", 1)
 		}
 	}
+	out.Write()
 }
